@@ -18,7 +18,7 @@ ID = "C18"
 LEVEL = "exploration"
 RULE = (
     "Hypothesis strategy for valid configuration dictionaries covering every field of every sub-config: variables "
-    "(scalar or per-variable bounds, types, mask), objective/realization weights (un-normalised, zeros), linear and "
+    "(scalar or per-variable bounds, types, mask), objective/realization weights (un-normalised, zeros, mixed signs, hand-rounded nearly normalised), linear and "
     "non-linear constraints (scalar or per-constraint bounds, filter/estimator maps), optimizer settings incl. options "
     "as dict/list/None, gradient settings (scalar or per-variable magnitudes, ABSOLUTE/RELATIVE, boundary types, sampler "
     "map, seed as int or tuple, thresholds above the counts), filter/estimator/sampler tuples, optional scaling "
@@ -324,6 +324,10 @@ def hypothesis_shard(item: dict[str, Any]) -> Collector:
             objectives["weights"][draw(st.integers(0, k_n - 1))] = -0.5
         if sum(objectives["weights"]) <= 0:
             objectives["weights"][0] = 2.0
+        if draw(st.integers(0, 4)) == 0:  # hand-rounded, nearly normalised weights (sum within 1e-5 of one)
+            objectives["weights"] = [round(1.0 / k_n, 5)] * k_n
+            if sum(objectives["weights"]) == 1.0:
+                objectives["weights"][0] -= draw(st.sampled_from([1e-5, 3e-6, -2e-6]))
         if f_n and draw(st.booleans()):
             objectives["realization_filters"] = [draw(st.integers(-1, f_n - 1)) for _ in range(k_n)]
         if draw(st.booleans()):
@@ -333,6 +337,10 @@ def hypothesis_shard(item: dict[str, Any]) -> Collector:
             realizations["weights"][draw(st.integers(0, r_n - 1))] = -0.25
         if sum(realizations["weights"]) <= 0:
             realizations["weights"][0] = 1.0
+        if draw(st.integers(0, 4)) == 0:
+            realizations["weights"] = [round(1.0 / r_n, 5)] * r_n
+            if sum(realizations["weights"]) == 1.0:
+                realizations["weights"][0] -= draw(st.sampled_from([1e-5, 3e-6, -2e-6]))
         if draw(st.booleans()):
             realizations["realization_min_success"] = draw(st.integers(0, 7))
         optimizer: dict[str, Any] = {}
